@@ -220,6 +220,77 @@ def comma_axis_operand(ctx, how):
     return ctx.done(ok, list(b.dims))
 
 
+def derived_operand(ctx, src, op, tsize=1):
+    """operands that are themselves results of earlier operations (an unlabelled singleton dimension from newaxis, a labelled one
+    from take(keepdims), an array sharing its axes with a sibling): an operation leaves them - dims, labels (None included),
+    values - exactly as they were.  What the operation returns is the business of C04 / C10 / C12."""
+    ctx.c15_mode = False
+    da = ctx.da
+    lx = ctx.labels('i', 2, 'lx')
+    ly = ctx.labels('i', 2, 'ly')
+    if src == 'keepdims':
+        a = ctx.mk(['x', 'y'], [lx, ly], ctx.cells('f', 4, 'v'))
+        b = a.take(ly[0], axis='y', keepdims=True)
+    else:
+        a = ctx.mk(['x'], [lx], ctx.cells('f', 2, 'v'))
+        if src == 'newaxis-first':
+            b = a.newaxis('y')
+        elif src == 'newaxis':
+            b = a.newaxis('y', pos=1)
+        elif src == 'neg-of-newaxis':
+            b0 = a.newaxis('y', pos=1)
+            b = -b0
+        elif src == 'sibling-of-newaxis':
+            b = a.newaxis('y', pos=1)
+            sib = -b
+        else:
+            raise ValueError(src)
+    dims0 = tuple(b.dims)
+    labels0 = [ax.values.tolist() for ax in b.axes]
+    kinds0 = [ctx.kind_of(ax.values) for ax in b.axes]
+    vals0 = ctx.flat(b.values.tolist())
+    tdims = list(dims0) if op != 'add-transposed' else list(reversed(dims0))
+    ty = ctx.labels('i', tsize, 'ty')
+    tl = [lx if d == 'x' else ty for d in tdims]
+    t = ctx.mk(tdims, tl, ctx.cells('f', 2 * tsize, 'w'))
+    if op == 'broadcast':
+        f = lambda: b.broadcast(t)
+    elif op == 'broadcast-axes':
+        f = lambda: b.broadcast(list(t.axes))
+    elif op == 'broadcast_arrays':
+        f = lambda: da.broadcast_arrays(b, t)
+    elif op == 'broadcast_arrays-rev':
+        f = lambda: da.broadcast_arrays(t, b)
+    elif op in ('add', 'add-transposed'):
+        f = lambda: b + t
+    elif op == 'radd':
+        f = lambda: t * b
+    elif op == 'array':
+        f = lambda: da.array([b, t])
+    elif op == 'align':
+        f = lambda: da.align([b, t])
+    elif op == 'reindex_like':
+        f = lambda: b.reindex_like(t)
+    elif op == 'stack-align':
+        f = lambda: da.stack([b, t], align=True)
+    elif op == 'concatenate':
+        f = lambda: da.concatenate([b, t], axis='x')
+    elif op == 'reshape':
+        f = lambda: b.reshape('x,y')
+    elif op == 'squeeze':
+        f = lambda: b.squeeze()
+    elif op == 'repeat':
+        f = lambda: b.repeat([5, 6], axis='y')
+    else:
+        raise ValueError(op)
+    r = ctx.call(f)
+    ok = ctx.AND(tuple(b.dims) == dims0, [ctx.kind_of(ax.values) for ax in b.axes] == kinds0,
+                 *([ctx.eqlist(ax.values.tolist(), l) for ax, l in zip(b.axes, labels0)] + [ctx.eqlist(ctx.flat(b.values.tolist()), vals0)]))
+    if src == 'sibling-of-newaxis':
+        ok = ctx.AND(ok, tuple(sib.dims) == dims0, *[ctx.eqlist(ax.values.tolist(), l) for ax, l in zip(sib.axes, labels0)])
+    return ctx.done(ok, [list(b.dims), [ax.values.tolist() for ax in b.axes]])
+
+
 def templates():
     ts = []
 
@@ -234,6 +305,13 @@ def templates():
     for src in ('mask', 'flatten'):
         for op in ('add', 'radd', 'reshape', 'broadcast', 'broadcast_arrays'):
             add('comma-axis-%s-%s' % (src, op), 'comma_axis_operand', cost=0.3, how='%s-%s' % (src, op))
+    for src in ('newaxis', 'newaxis-first', 'keepdims', 'neg-of-newaxis', 'sibling-of-newaxis'):
+        for op in ('broadcast', 'broadcast-axes', 'broadcast_arrays', 'broadcast_arrays-rev', 'add', 'add-transposed', 'radd', 'array', 'align', 'reindex_like', 'stack-align', 'concatenate',
+                   'reshape', 'squeeze', 'repeat'):
+            for tsize in (1, 2):
+                if tsize == 2 and op in ('reshape', 'squeeze', 'repeat'):
+                    continue
+                add('derived-%s-%s-t%d' % (src, op, tsize), 'derived_operand', cost=0.4, src=src, op=op, tsize=tsize)
     for ctor in ('setitem', 'ctor', 'kwargs'):
         for op in ('set_axis', 'rename_axes', 'axis-item', 'axes-setitem', 'copy-set_axis', 'set_axis-notinplace', 'rename_axes-notinplace', 'rename_keys-notinplace'):
             add('dataset-%s-%s' % (ctor, op), 'dataset_aliasing', cost=0.5, how='%s-%s' % (ctor, op))
